@@ -120,6 +120,21 @@ def _group_with_open_member(case):
     return False
 
 
+def _group_repeat_depends_on_presence(case):
+    """K34 guard: a grouping entry with members of both kinds (parallel connections allowed / not allowed) of which a member
+    that allows them exists only conditionally"""
+    kinds = case.get('kinds', {})
+    permanent = dsgcase.py_closure({k: v for k, v in case.items() if k != 'conn'}, {})
+    for cc in case.get('conn', []):
+        for e in cc['src'] + cc['tgt']:
+            if isinstance(e, int):
+                continue
+            reps = [bool(kinds.get(str(m), [None, None, False])[2]) for m in e[1]]
+            if any(reps) and not all(reps) and any(r and m not in permanent for r, m in zip(reps, e[1])):
+                return True
+    return False
+
+
 def match_known(case, fail, known):
     if case.get('_grp'):
         return None
@@ -139,6 +154,9 @@ def match_known(case, fail, known):
                 return k
         if k.get('id') == 'K33' and (fail.get('clause') or '').startswith('processor-raises:ValueError') and \
                 'not feasible to begin with' in (fail.get('detail') or '') and dsgcase.orphan_required_connector(case):
+            return k
+        if k.get('id') == 'K34' and case.get('_proc') and (fail.get('clause') or '') in ('architectures-differ', 'two-rows-one-architecture', 'n-valid-designs-differs', 'decoded-architecture-not-in-model') and \
+                _group_repeat_depends_on_presence(case):
             return k
         if k.get('id') == 'K23' and fail.get('clause') in ('architectures-differ', 'n-valid-designs-differs', 'two-rows-one-architecture') and _group_with_open_member(case):
             return k
